@@ -12,6 +12,7 @@ import (
 	"runtime/debug"
 	"sync"
 	"sync/atomic"
+	"syscall"
 	"time"
 
 	"verif/harness/vh"
@@ -135,6 +136,8 @@ type worker struct {
 func startWorker() (*worker, error) {
 	cmd := exec.Command(vh.Self(), "__child", "c02run")
 	cmd.Env = append(os.Environ(), "GOMEMLIMIT=1500MiB")
+	// a worker stuck in a script's endless loop must not outlive a killed harness
+	cmd.SysProcAttr = &syscall.SysProcAttr{Pdeathsig: syscall.SIGKILL}
 	in, err := cmd.StdinPipe()
 	if err != nil {
 		return nil, err
